@@ -1,20 +1,37 @@
 #!/bin/bash
 # Run the repository's pinned suite against a source tree (default /repo) and
-# compare with /root/.vp/BASELINE.json stable_pass.  usage: baseline.sh [repo_dir] [extra env]
+# compare with /root/.vp/BASELINE.json stable_pass.  usage: baseline.sh [repo_dir]
+# Baseline tests that do not pass in the parallel run are re-run alone once (some
+# socket tests time out when the machine is heavily loaded).
 R=${1:-/repo}
 OUT=$(mktemp -d /tmp/baseline.XXXX)
 cd "$R" && env -u FANDANGO_VERIF PYTHONPATH="$R/src" /venv/bin/python -m pytest -ra -q -p no:cacheprovider --timeout=900 --continue-on-collection-errors --junitxml=$OUT/j.xml > $OUT/log 2>&1
-/venv/bin/python - "$OUT/j.xml" <<'PY'
-import sys, json, xml.etree.ElementTree as ET
+/venv/bin/python - "$OUT/j.xml" "$R" <<'PY'
+import sys, json, subprocess, os, xml.etree.ElementTree as ET
 base=set(json.load(open('/root/.vp/BASELINE.json'))['stable_pass'])
-t=ET.parse(sys.argv[1]); ok=set(); bad=set()
-for tc in t.iter('testcase'):
-    name=f"{tc.get('classname')}::{tc.get('name')}"
-    if any(c.tag in('failure','error') for c in tc): bad.add(name)
-    elif any(c.tag=='skipped' for c in tc): pass
-    else: ok.add(name)
+def parse(path):
+    t=ET.parse(path); ok=set(); bad=set()
+    for tc in t.iter('testcase'):
+        name=f"{tc.get('classname')}::{tc.get('name')}"
+        if any(c.tag in('failure','error') for c in tc): bad.add(name)
+        elif any(c.tag=='skipped' for c in tc): pass
+        else: ok.add(name)
+    return ok,bad
+ok,bad=parse(sys.argv[1]); R=sys.argv[2]
 miss=sorted(base-ok)
-print(f"passed={len(ok)} failed={len(bad)} baseline={len(base)} baseline_not_passing={len(miss)}")
+rerun=[]
+if 0<len(miss)<=6:
+    for m in miss:
+        cls,name=m.split('::',1)
+        parts=cls.split('.')
+        # tests.test_x[.Class]
+        f='/'.join(parts[:2])+'.py'
+        node=f+('::'+parts[2] if len(parts)>2 else '')+'::'+name
+        env=dict(os.environ,PYTHONPATH=R+'/src'); env.pop('FANDANGO_VERIF',None)
+        p=subprocess.run(['/venv/bin/python','-m','pytest','-q','-p','no:cacheprovider','-n','0','--timeout=900',node],cwd=R,env=env,capture_output=True,text=True)
+        if p.returncode==0: rerun.append(m)
+miss=[m for m in miss if m not in rerun]
+print(f"passed={len(ok)+len(rerun)} failed={len(bad)-len(rerun)} baseline={len(base)} baseline_not_passing={len(miss)}"+(f" (passed alone on re-run: {rerun})" if rerun else ""))
 for m in miss[:40]: print("  MISSING", m)
 PY
 rm -rf "$OUT"
